@@ -247,7 +247,7 @@ def has_cavity_off(spec):
 
 def leaf_contract_real(run, n_per_class):
     """skippable => track(b) == apply transfer_map(b.energy), energy/charges/survival kept."""
-    import cheetah
+    from cheetah.accelerator.element import Element
     bad = []
     for cls in realgen.CLASSES:
         for i in range(n_per_class):
@@ -261,7 +261,7 @@ def leaf_contract_real(run, n_per_class):
                         run.count("contract_nonskippable_" + cls)
                         continue
                     out = e.track(b)
-                    ref = cheetah.Element.track(e, b)   # the linear map applied by the base class
+                    ref = Element.track(e, b)   # the linear map applied by the base class (cheetah does not export Element at top level)
                     d = realgen.beams_close(out, ref, rtol=1e-11, atol=1e-14)
                 except Exception as ex:  # noqa
                     run.count("contract_exception_" + cls)
@@ -372,6 +372,248 @@ def has_nan(beam):
     return any(bool(torch.isnan(t).any()) for t in beam.buffers())
 
 
+# ---------------------------------------------------------------- element names that collide with attributes of the Segment
+# Segment.__init__ publishes every child as `segment.<child name>`.  A child may carry ANY name: one that equals an attribute or a
+# method of Segment / Element / nn.Module (inherited ones included: `forward` is what `segment(beam)` dispatches to) must not change
+# what any of the public ways of tracking through the segment computes.  The names are read off the live classes on every run.
+def live_attribute_names():
+    """{name: where it comes from} for every attribute name of a Segment instance: class body of Segment, of Element, of nn.Module /
+    object (inherited), and the instance attributes set by the constructors"""
+    import cheetah
+    from cheetah.accelerator.element import Element
+    probe = cheetah.Segment([])
+    inst = set(vars(probe)) | set(probe._modules) | set(probe._buffers) | set(probe._parameters)
+    out = {}
+    for n in sorted(set(dir(cheetah.Segment)) | inst):
+        if n in vars(cheetah.Segment):
+            out[n] = "segment_body"
+        elif n in vars(Element):
+            out[n] = "element_body"
+        elif n in inst and not hasattr(cheetah.Segment, n):
+            out[n] = "instance"
+        elif n in vars(torch.nn.Module):
+            out[n] = "module_body"
+        else:
+            out[n] = "inherited_other"
+    return out
+
+
+def _acting_element(rng, name):
+    """an element that visibly acts on the beam, so that tracking through it alone differs from tracking through the lattice"""
+    k = rng.randrange(5)
+    if k == 0:
+        return {"cls": "Drift", "name": name, "kw": {"length": rng.choice([0.25, 0.5, 1.0]), "tracking_method": "cheetah"}}
+    if k == 1:
+        return {"cls": "Quadrupole", "name": name, "kw": {"length": rng.choice([0.1, 0.2]), "k1": rng.choice([4.0, -3.0, 2.0]), "tracking_method": "cheetah"}}
+    if k == 2:
+        return {"cls": rng.choice(["HorizontalCorrector", "VerticalCorrector"]), "name": name, "kw": {"length": rng.choice([0.0, 0.1]), "angle": rng.choice([2e-3, -1e-3])}}
+    if k == 3:
+        return {"cls": "Cavity", "name": name, "kw": {"length": 1.0, "voltage": rng.choice([2e6, 5e6]), "phase": rng.choice([0.0, 30.0]), "frequency": 1.3e9}}
+    return {"cls": "Solenoid", "name": name, "kw": {"length": 0.2, "k": rng.choice([1.0, -2.0])}}
+
+
+def gen_reserved_lattice(rng, reserved, counter):
+    """A lattice (flat or nested) some of whose elements / sub-segments are called like attributes of the Segment; all top-level names
+    are distinct; the other elements have ordinary names."""
+    def ordinary():
+        counter[0] += 1
+        e = _acting_element(rng, f"el{counter[0]}")
+        if rng.random() < 0.15:
+            e = {"cls": "BPM", "name": e["name"], "kw": {"is_active": True}}       # a non-mergeable neighbour
+        return e
+    pending = list(reserved)
+    top = [ordinary() for _ in range(rng.randrange(2, 5))]
+    shape = rng.choice(["flat", "flat", "inside_sub", "sub_named", "both"])
+    if shape == "flat":
+        for n in pending:
+            top.insert(rng.randrange(len(top) + 1), _acting_element(rng, n))
+    elif shape == "inside_sub":
+        counter[0] += 1
+        inner = [ordinary()] + [_acting_element(rng, n) for n in pending]
+        rng.shuffle(inner)
+        top.insert(rng.randrange(len(top) + 1), {"cls": "Segment", "name": f"sub{counter[0]}", "es": inner})
+    elif shape == "sub_named":
+        inner = [ordinary(), ordinary()] + [_acting_element(rng, n) for n in pending[1:]]
+        top.insert(rng.randrange(len(top) + 1), {"cls": "Segment", "name": pending[0], "es": inner})
+    else:
+        counter[0] += 1
+        inner = [ordinary(), _acting_element(rng, pending[0])]
+        rng.shuffle(inner)
+        top.insert(rng.randrange(len(top) + 1), {"cls": "Segment", "name": f"sub{counter[0]}", "es": inner})
+        for n in pending:                    # the same reserved name at both levels
+            top.insert(rng.randrange(len(top) + 1), _acting_element(rng, n))
+    return {"cls": "Segment", "name": "line", "es": top}, shape
+
+
+def _spec_leaves(spec):
+    if spec["cls"] == "Segment":
+        return [l for c in spec["es"] for l in _spec_leaves(c)]
+    return [spec]
+
+
+def _build_as(spec, K):
+    if spec["cls"] == "Segment":
+        return K([_build_as(c, K) for c in spec["es"]], name=spec.get("name"))
+    return realgen.build(spec)
+
+
+def reserved_check(lat, beam, subclass, cut=None, reserved=()):
+    """All public ways of tracking through the lattice vs the fold of element.track over its leaves (built separately from the spec).
+    Returns {entry point: diffs}; empty = fine.  `subclass`: build every (sub-)segment as a trivial user subclass of Segment."""
+    import cheetah
+    if subclass:
+        class MySeg(cheetah.Segment):
+            pass
+        K = MySeg
+    else:
+        K = cheetah.Segment
+    b = realgen.build_beam(beam)
+    ref = b
+    for leaf in _spec_leaves(lat):
+        ref = realgen.build(leaf).track(ref)
+    if has_nan(ref):
+        return None
+    kids = [_build_as(c, K) for c in lat["es"]]
+    seg = K(list(kids), name=lat.get("name"))
+    names = [c["name"] for c in lat["es"]]
+    k = len(names) // 2 if cut is None else cut
+
+    def in_turn(call):
+        def f():
+            cur = b
+            parts = ([seg.subcell(names[0], names[k - 1])] if k > 0 else []) + ([seg.subcell(names[k], names[-1])] if k < len(names) else [])
+            for part in parts:
+                cur = part(cur) if call else part.track(cur)
+            return cur
+        return f
+
+    def children_called():
+        cur = b
+        for c in kids:
+            cur = c(cur)
+        return cur
+    entries = {"segment.track(beam)": lambda: seg.track(b), "segment(beam)": lambda: seg(b), "segment.forward(beam)": lambda: seg.forward(b),
+               "segment.flattened().track(beam)": lambda: seg.flattened().track(b), "segment.flattened()(beam)": lambda: seg.flattened()(b),
+               "subcell(first..k-1).track then subcell(k..last).track": in_turn(False), "subcell(first..k-1)(beam) then subcell(k..last)(beam)": in_turn(True),
+               "children called as modules in turn": children_called}
+    bad = {}
+    for what, f in entries.items():
+        try:
+            d = realgen.beams_close(f(), ref, rtol=1e-9, atol=1e-13)
+        except Exception as ex:  # noqa -- element-by-element tracking works, this entry point raises
+            d = [("raised " + type(ex).__name__ + ": " + str(ex)[:120], float("inf"))]
+        if d:
+            bad[what] = d
+    try:
+        tot = sum(float(l["kw"].get("length", 0.0)) for l in _spec_leaves(lat))
+        if abs(float(seg.length) - tot) > 1e-12 * max(1.0, abs(tot)):
+            bad["segment.length"] = [("length", abs(float(seg.length) - tot))]
+    except Exception as ex:  # noqa
+        bad["segment.length"] = [("raised " + type(ex).__name__ + ": " + str(ex)[:120], float("inf"))]
+    # by-name handles of the ordinarily named children still work
+    for c, obj in zip(lat["es"], kids):
+        if c["name"] in reserved:
+            continue
+        try:
+            got = getattr(seg, c["name"])
+        except Exception as ex:  # noqa
+            got = ex
+        if got is not obj:
+            bad[f"segment.{c['name']}"] = [("by-name handle is not the element: " + repr(got)[:80], float("inf"))]
+    return bad
+
+
+def reserved_name_stage(run, rounds):
+    """every attribute name of a live Segment instance is used as an element / sub-segment name at least once per round"""
+    where = live_attribute_names()
+    run.cov["reserved_names_live"] = {w: sum(1 for v in where.values() if v == w) for w in sorted(set(where.values()))}
+    bad = []
+    counter = [0]
+    for rd in range(rounds):
+        names = sorted(where)
+        run.rng.shuffle(names)
+        i = 0
+        while i < len(names):
+            g = names[i:i + run.rng.choice([2, 3, 4, 5, 6])]
+            i += len(g)
+            lat, shape = gen_reserved_lattice(run.rng, g, counter)
+            bt = run.rng.choice(["particle", "parameter"])
+            beam = realgen.gen_particle_beam(run.rng, energy=1e8) if bt == "particle" else realgen.gen_parameter_beam(run.rng, energy=1e8)
+            cut = run.rng.randrange(0, len(lat["es"]) + 1)
+            for subclass in (False, True):
+                try:
+                    res = reserved_check(lat, beam, subclass, cut, g)
+                except Exception as ex:  # noqa -- the segment could not even be constructed although its elements track alone
+                    res = {"constructing the segment": [("raised " + type(ex).__name__ + ": " + str(ex)[:120], float("inf"))]}
+                if res is None:
+                    run.count("reserved_skipped_reference_has_nan")
+                    continue
+                run.add_case(["reserved", lat, bt, subclass], True)
+                run.count("reserved_shape_" + shape)
+                run.count("reserved_" + ("user_subclass" if subclass else "Segment"))
+                for n in g:
+                    run.count("reserved_from_" + where[n])
+                if res:
+                    bad.append({"kind": "reserved_names", "lattice": lat, "beam": beam, "segment_class": "trivial user subclass of Segment" if subclass else "Segment",
+                                "cut": cut, "colliding_names": list(g), "diffs": res})
+    return bad
+
+
+def shrink_reserved(item):
+    """keep one colliding name (the others become ordinary names) and drop elements while some entry point still differs"""
+    subclass = item["segment_class"] != "Segment"
+
+    def fails(lat, names):
+        try:
+            r = reserved_check(lat, item["beam"], subclass, None, names)
+        except Exception:  # noqa
+            return True
+        return bool(r)
+
+    def rename(spec, old, new):
+        s = dict(spec)
+        if s["name"] == old:
+            s["name"] = new
+        if s["cls"] == "Segment":
+            s["es"] = [rename(c, old, new) for c in s["es"]]
+        return s
+    lat, names = item["lattice"], list(item["colliding_names"])
+    for j, n in enumerate(list(names)):
+        if len(names) == 1:
+            break
+        l2 = rename(lat, n, f"plain{j}")
+        rest = [m for m in names if m != n]
+        if fails(l2, rest):
+            lat, names = l2, rest
+    def all_names(spec):
+        return [spec["name"]] + ([n for c in spec["es"] for n in all_names(c)] if spec["cls"] == "Segment" else [])
+
+    def paths(e, pth=()):
+        if e["cls"] == "Segment":
+            for i, c in enumerate(e["es"]):
+                yield pth + (i,)
+                yield from paths(c, pth + (i,))
+    changed = True
+    while changed:
+        changed = False
+        for pth in list(paths(lat)):
+            l2 = copy.deepcopy(lat)
+            node = l2
+            for i in pth[:-1]:
+                node = node["es"][i]
+            del node["es"][pth[-1]]
+            if len(l2["es"]) >= 1 and any(n in names for n in all_names(l2)[1:]) and fails(l2, names):
+                lat, changed = l2, True
+                break
+    try:
+        res = reserved_check(lat, item["beam"], subclass, None, names)
+    except Exception as ex:  # noqa
+        res = {"constructing the segment": [("raised " + type(ex).__name__ + ": " + str(ex)[:120], float("inf"))]}
+    return dict(item, lattice=lat, colliding_names=names, cut=None, diffs=res,
+                relation="every public way of tracking through a Segment (track, call, forward, flattened, sub-cells in turn, children called as modules; "
+                         "also for a trivial user subclass) == fold of element.track over its elements, whatever the elements are called")
+
+
 def classify_real(run, bad):
     """known finding F1 (zero-voltage Cavity: track != its own transfer map) vs new violations"""
     new = []
@@ -431,8 +673,14 @@ def main(tier, replay=None):
     bad_real = leaf_contract_real(run, 40 if thorough else 4) + e2e_real(run, 2000 if thorough else 80)
     replay_known(run)
     new_real = classify_real(run, bad_real)
+    # element / sub-segment names equal to attributes of the Segment, through every public way of tracking (after the older stages,
+    # which keep their random stream)
+    bad_res = reserved_name_stage(run, 6 if thorough else 1)
     run.cov["tested_only"] = ["leaf contract of real element classes vs the code (float tolerance 1e-11)",
-                              "end-to-end Segment.track vs fold on real lattices (float tolerance 1e-9)"]
+                              "end-to-end Segment.track vs fold on real lattices (float tolerance 1e-9)",
+                              "every attribute name of a live Segment instance (dir(Segment) + instance attributes) as an element / sub-segment name: "
+                              "track / call / forward / flattened / sub-cells in turn / children called as modules, Segment and a trivial user subclass, "
+                              "vs the fold of element.track (float tolerance 1e-9); by-name handles of the other children (Python attribute lookup is outside the model)"]
 
     # ---- verdict
     if impl_fail:
@@ -452,6 +700,8 @@ def main(tier, replay=None):
                            "flattened_track": o["flat_out"], "relation": "Segment.track(b) == fold(element.track) == flattened().track(b)"})
     elif new_real:
         run.violation(dict(new_real[0], relation="Segment.track == ordered composition of element.track (real elements)"))
+    elif bad_res:
+        run.violation(shrink_reserved(bad_res[0]))
     elif failing:
         # model and implementation disagree but the property oracle found no failing input
         i = failing[0]
@@ -474,6 +724,10 @@ def do_replay(run, path):
         print("replay:", "property holds on this input" if ok else "property FAILS on this input")
         print(json.dumps({"segment_track": o["out"], "fold": o["fold_out"], "flattened": o["flat_out"]}))
         return 0 if ok else 1
+    if r.get("kind") == "reserved_names":
+        d = reserved_check(r["lattice"], r["beam"], r.get("segment_class") != "Segment", r.get("cut"), r.get("colliding_names", []))
+        print("replay:", "property holds on this input" if not d else f"property FAILS on this input: {json.dumps(d)[:1500]}")
+        return 1 if d else 0
     spec = r.get("lattice") or {"cls": "Segment", "name": "s", "es": [r["spec"]]}
     seg = realgen.build(spec)
     b = realgen.build_beam(r["beam"])
